@@ -20,12 +20,12 @@
         `Parse` ends in
   * `unmarshalJSON_total`, `unmarshalJSON_reject` : never a panic; non-numbers give `*json.UnmarshalTypeError`
         and leave the receiver
-  * `json_roundtrip`     : `UnmarshalJSON (MarshalJSON d)` has the sign and the value of `d`, error `nil`.
-        The parser's value theorem enters as hypothesis `hpn`
-        (= `Props.C05.parseNumber_value g · · false m hm`, D128/Props/C05Value.lean, being adapted to a change
-        of the Go source; the instantiation type-checks against its last built version).
+  * `json_roundtrip`     : `UnmarshalJSON (MarshalJSON d)` has the sign and the value of `d` (`Val.same`), error
+        `nil`, for every valid `DefaultRoundingMode` — unconditional (`Props.C05.parseNumber_value` instantiated)
+  * `json_roundtrip_equal` : the same with `Spec.equal` and equal sign bit (also −0, zeros with any exponent)
 -/
 import D128.Proofs.EmitRound
+import D128.Proofs.EmitRoundFinal
 import D128.Proofs.EmitJsonNum
 import D128.Proofs.EmitJsonTotal
 set_option autoImplicit false
@@ -152,17 +152,24 @@ example (g : Globals) (d : Gen.Decimal) :=
 /-! ## round trip -/
 
 /-- **JSON is a lossless interchange form.**  `UnmarshalJSON` (any receiver `d0`) of the bytes of
-`MarshalJSON d` returns, without error, a Decimal with the sign and the value of `d`.
-`hpn` is `fun s neg n sc hsz h => Props.C05.parseNumber_value g s neg false m hm hsz n sc h`. -/
-theorem json_roundtrip (g : Globals) (m : Spec.Mode) (d d0 : Gen.Decimal) (neg : Bool)
-    (c : Nat) (e : Int) (hfin : 𝔳[d] = .fin neg c e)
-    (hpn : ∀ (s : Go.Bytes) (neg : Bool) (n : Nat) (sc : Int), s.size + 6216 ≤ 2 ^ 58 →
-      Spec.readNumber false (chars s) = some (n, sc) →
-      ∃ v err, Gen.parseNumber g s neg false = .ok (v, err) ∧
-        (𝔳[v]).same (Spec.literalValue m neg n sc).1 = true ∧
-        err = (if (Spec.literalValue m neg n sc).2 then Go.Err.parseNumberRangeError else Go.Err.nil)) :
+`MarshalJSON d` returns, without error, a Decimal with the sign and the value of `d`. -/
+theorem json_roundtrip (g : Globals) (m : Spec.Mode)
+    (hm : Spec.Mode.ofNat? g.DefaultRoundingMode.toNat = some m) (d d0 : Gen.Decimal) (neg : Bool)
+    (c : Nat) (e : Int) (hfin : 𝔳[d] = .fin neg c e) :
     ∃ out v, Gen.Decimal.MarshalJSON d = .ok (out, Go.Err.nil) ∧
       Gen.Decimal.UnmarshalJSON g d0 out = .ok (v, Go.Err.nil) ∧ (𝔳[v]).same (𝔳[d]) = true :=
-  Emit.json_roundtrip g m d d0 neg c e hfin hpn
+  Emit.json_rt g m hm d d0 neg c e hfin
+
+/-- the same with `Spec.equal` and the sign bit (also −0 and zeros with any exponent) -/
+theorem json_roundtrip_equal (g : Globals) (m : Spec.Mode)
+    (hm : Spec.Mode.ofNat? g.DefaultRoundingMode.toNat = some m) (d d0 : Gen.Decimal) (neg : Bool)
+    (c : Nat) (e : Int) (hfin : 𝔳[d] = .fin neg c e) :
+    ∃ out v, Gen.Decimal.MarshalJSON d = .ok (out, Go.Err.nil) ∧
+      Gen.Decimal.UnmarshalJSON g d0 out = .ok (v, Go.Err.nil) ∧
+      Spec.equal (𝔳[v]) (𝔳[d]) = true ∧ (𝔳[v]).neg = (𝔳[d]).neg ∧ (𝔳[v]).isFin = true :=
+  Emit.json_equal g m hm d d0 neg c e hfin
+
+example := json_roundtrip_equal ⟨2⟩ .toZero rfl ex1 default true 5 20 ex1_val
+example := json_roundtrip_equal ⟨5⟩ .toPosInf rfl ⟨0, 12711409948253224960⟩ ex2 true 0 20 (by decide)
 
 end Props.C13
